@@ -485,16 +485,33 @@ XML_CLOSE = [int(x) for x in os.environ.get("VERIF_XML_CLOSE", "0,1,2,3").split(
 
 
 def _ok_xml(v: List[int]) -> bool:
-    if len(v) != 8:
+    """symbolic part: outer prefix, outer attributes, body kind, inner prefix; the inner attributes and the close-tag
+    variant are looped over natively for each of these"""
+    if len(v) != 5:
         return False
-    lims = [len(XML_PREFIX), len(XML_ATTR), len(XML_ATTR), len(XML_KIND), len(XML_PREFIX), len(XML_ATTR), len(XML_ATTR), 4]
+    lims = [len(XML_PREFIX), len(XML_ATTR), len(XML_ATTR), len(XML_KIND), len(XML_PREFIX)]
     if not all(0 <= x < m for x, m in zip(v, lims)):
         return False
-    if (XML_SLOTS[0] == 1 and v[2]) or (XML_SLOTS[1] == 1 and v[6]) or v[7] not in XML_CLOSE:
+    if XML_SLOTS[0] == 1 and v[2]:
         return False
     if PART:
         k, m = PART.split("/")
-        return (v[1] + v[2] + v[3] * 3 + v[5]) % int(m) == int(k)
+        return (v[1] + v[2] + v[3] * 3) % int(m) == int(k)
+    return True
+
+
+def _adequacy_xml_all(v) -> bool:
+    n = 0
+    for b1 in range(len(XML_ATTR)):
+        for b2 in (range(len(XML_ATTR)) if XML_SLOTS[1] > 1 else (0,)):
+            for close in XML_CLOSE:
+                try:
+                    _adequacy_xml_ns(list(v) + [b1, b2, close])
+                    n += 1
+                except vlib.IgnoreAttempt:
+                    continue
+    if n == 0:
+        raise vlib.IgnoreAttempt()
     return True
 
 
@@ -503,12 +520,13 @@ def h_adq_xml_ns(v: List[int]) -> bool:
     pre: _ok_xml(v)
     post: _
     """
-    return vlib.untraced(_adequacy_xml_ns, [int(x) for x in vlib.realize(v)])
+    return vlib.untraced(_adequacy_xml_all, [int(x) for x in vlib.realize(v)])
 
 
 # ------------------------------------------------------------------ adequacy: simple TAR (field-level decoder)
 
 TAR2 = os.environ.get("VERIF_TAR2", "0") == "1"
+TAR_LINKS = int(os.environ.get("VERIF_TAR_LINKS", "4"))
 TAR_NAMES = ["a", "b", "ab"]
 TAR_PADS = [0, -1, 1]           # deviation of the NUL padding from the 100-byte field width
 TAR_CHK = ["ok", "plus1", "short", "long"]
@@ -571,7 +589,7 @@ def _ok_tar(v: List[int]) -> bool:
         return False        # two entries: one of them is the valid baseline entry "a"
     for e in range(v[0] + 1):
         ni, npad, flag, li, lpad, ck = v[1 + 6 * e: 7 + 6 * e]
-        if not (0 <= ni < 3 and 0 <= npad < 3 and 0 <= flag < 2 and 0 <= li < 4 and 0 <= lpad < 3 and 0 <= ck < 4):
+        if not (0 <= ni < 3 and 0 <= npad < 3 and 0 <= flag < 2 and 0 <= li < TAR_LINKS and 0 <= lpad < 3 and 0 <= ck < 4):
             return False
     if PART:
         k, m = PART.split("/")
